@@ -2,7 +2,7 @@
    Each edit of the model on [encode xs] is the same edit on the code list xs; since the result is
    again of the form [encode _], the statement lifts to every finite history by composition. *)
 From Coq Require Import List NArith Bool Arith.
-From BioSeq Require Import Bits Codec SeqModel SeqProofs.
+From BioSeq Require Import Bits Codec SeqModel SeqProofs History.
 Import ListNotations.
 
 Theorem C06_push : forall (C : codec) (xs : list N) (x : N),
@@ -53,6 +53,27 @@ Theorem C06_collect : forall (C : codec) (xs : list N),
   collect_syms C xs = encode (c_bits C) xs.
 Proof. exact collect_spec. Qed.
 
+(* ... and therefore, by induction over the history: after ANY finite series of in-bounds edits
+   (argument slices being arbitrary sequences) the model's result is [encode] of the list obtained
+   by applying the same edits to the plain list of symbols, in both build profiles *)
+Theorem C06_any_history : forall (C : codec) (dbg : bool), codec_ok C ->
+  forall (ops : list eop) (xs ys : list N),
+  lrun xs ops = Some ys -> mrun C dbg (encode (c_bits C) xs) ops = Some (encode (c_bits C) ys).
+Proof. exact history_refines. Qed.
+
+Theorem C06_history_length_and_symbols : forall (C : codec) (dbg : bool), codec_ok C ->
+  forall (ops : list eop) (xs ys : list N),
+  Forall (smallc C) ys -> canonl C ys -> lrun xs ops = Some ys ->
+  exists s, mrun C dbg (encode (c_bits C) xs) ops = Some s /\
+            slen C s = length ys /\ iter C s = Some ys.
+Proof. exact history_length_and_symbols. Qed.
+
+(* non-vacuity: a concrete history *)
+Example C06_history_example :
+  lrun [1; 2; 3]%N [EPush 0%N; EInsert 1 [3; 3]%N; ERemove 0 0 2; ETruncate 3; EPrepend [2]%N]
+  = Some [2; 3; 2; 3]%N.
+Proof. reflexivity. Qed.
+
 Print Assumptions C06_push.
 Print Assumptions C06_extend.
 Print Assumptions C06_append.
@@ -62,3 +83,5 @@ Print Assumptions C06_truncate.
 Print Assumptions C06_remove.
 Print Assumptions C06_range_forms.
 Print Assumptions C06_collect.
+Print Assumptions C06_any_history.
+Print Assumptions C06_history_length_and_symbols.
